@@ -779,6 +779,36 @@ def run(ctx):
         ctx.unknown('R16ab', w, None, 'only %d delimiter-list constructions found in the legacy methods' % n_gd,
                     construct='legacy delimiter lists')
 
+    # ---- R16ac: a test on the current position is made where the position is current
+    ctx.rule('R16ac', 'the legacy argument parsers compute no test of the reading position (is there white space at p, are we at '
+                      'the end) once in front of the argument loop and use it inside the loop, where p has moved: '
+                      'optional_arg_no_space is decided at the position of each `[` slot, as the pylatexenc-3 argument parser '
+                      'does (grules.stale_hoisted_tests; exercised on a built-in example on every run)', 1)
+    from .. import grules as _gr16
+    from ..core import set_parents as _sp16
+    ex16_ = ast.parse('def f(s, p, spec):\n    sp = p < len(s) and s[p].isspace()\n    for a in spec:\n        if sp:\n'
+                      '            continue\n        p = p + 1\n    return p\n')
+    _sp16(ex16_)
+    if len(list(_gr16.stale_hoisted_tests(ex16_.body[0]))) != 1:
+        raise AnalysisError('R16ac: the stale-test rule no longer fires on its built-in example')
+    n_sh = 0
+    for mn_, mod_ in sorted(repo.modules.items()):
+        if '_pyltxenc2_argparsers' not in mn_:
+            continue
+        for q_, f_ in sorted(mod_.functions.items()):
+            n_sh += 1
+            for a_, v_, lp_, use_ in _gr16.stale_hoisted_tests(f_):
+                ctx.refuted('R16ac', mod_, a_, '%s computes `%s` once before the loop at line %d, but `%s` is re-assigned inside that '
+                            'loop and the loop still branches on the old answer (%s): for every argument after the first the test '
+                            'speaks about the position in front of the arguments -- `\\cmd{a} [b]` with optional_arg_no_space '
+                            'reads [b] as an optional argument where the pylatexenc-3 parser with the same spec does not'
+                            % (q_, short(a_, 70), lp_.lineno, v_, short(use_.test, 40)),
+                            construct='%s: test of %s computed before the loop' % (q_, v_))
+    if not n_sh:
+        raise AnalysisError('anchor vanished: no function in the legacy argument parser modules')
+    ctx.holds('R16ac', repo.mod(BASE), None, 'no stale position test in the legacy argument parsers (%d functions; built-in '
+                                             'example flagged)' % n_sh, construct='stale test scan', trivial=True)
+
     # ---- R16z: the environment name that is checked is the one that was written
     ctx.rule('R16z', 'get_latex_environment compares the requested name with the node\'s own environmentname (what the source '
                      'says), not with a name taken from the specification: an environment without a specification of its own '
